@@ -20,3 +20,14 @@ func VerifSetConfig(epochMs int64, nodeBits uint8, nodeAtLowest bool) (restore f
 	_epoch, _nodeBits, _nodeAtLowest = epochMs, nodeBits, nodeAtLowest
 	return func() { _epoch, _nodeBits, _nodeAtLowest = oe, ob, ol }
 }
+
+// VerifMonoEpoch returns the epoch a MonoNode measures elapsed time from (ok is
+// false for other node types). MonoNode is immune to wall-clock steps only while
+// that value carries a monotonic clock reading (verification hook).
+func VerifMonoEpoch(n Node) (epoch time.Time, ok bool) {
+	var m, isMono = n.(*MonoNode)
+	if !isMono {
+		return time.Time{}, false
+	}
+	return m.epoch, true
+}
